@@ -110,7 +110,7 @@ impl<'a> P<'a> {
                 if self.peek() == Some(b'[') {
                     self.i += 1;
                     loop {
-                        let w = self.word(b"_");
+                        let w = self.word(b"_*!");
                         if !w.is_empty() {
                             ign.push(w);
                         }
@@ -344,7 +344,18 @@ fn describe(
     } else if lmd.is_dir() {
         let ino = inos[&std::fs::canonicalize(p).unwrap()];
         let dev = devs[&lmd.dev()];
-        let ign: Vec<String> = read_ign(p).iter().map(|n| names.id(n).to_string()).collect();
+        // pattern code: 2*id for `name`, 2*id+1 for `!name`; id 0 stands for `*`
+        let ign: Vec<String> = read_ign(p)
+            .iter()
+            .map(|pat| {
+                let (neg, body) = match pat.strip_prefix('!') {
+                    Some(b) => (1, b),
+                    None => (0, pat.as_str()),
+                };
+                let id = if body == "*" { 0 } else { names.id(body) };
+                (2 * id + neg).to_string()
+            })
+            .collect();
         out.push_str(&format!("(d {} {} {} (ign {})", name, ino, dev, ign.join(" ")));
         // children in read_dir order: which siblings the serial walker loses after the known
         // skip_current_dir defect depends on it
@@ -363,6 +374,23 @@ fn describe(
 }
 
 // ------------------------------------------------------------------ independent recursive listing (std::fs only)
+
+/// gitignore semantics for the patterns the generator uses (`name`, `*`, `!name`, `!*`): the innermost directory
+/// whose ignore file has a matching pattern decides; within a file the last matching pattern.
+fn ignored_by(igns: &[Vec<String>], name: &str) -> bool {
+    for file in igns.iter().rev() {
+        for pat in file.iter().rev() {
+            let (neg, body) = match pat.strip_prefix('!') {
+                Some(b) => (true, b),
+                None => (false, pat.as_str()),
+            };
+            if body == "*" || body == name {
+                return !neg;
+            }
+        }
+    }
+    false
+}
 
 struct Lister<'a> {
     cfg: &'a Cfg,
@@ -426,7 +454,7 @@ impl<'a> Lister<'a> {
                 lmd
             };
             let is_dir = md.is_dir();
-            if igns.iter().any(|g| g.contains(&name)) {
+            if ignored_by(igns, &name) {
                 continue;
             }
             if !is_dir && self.cfg.size.map_or(false, |m| md.len() > m) {
@@ -867,6 +895,23 @@ struct Gen<'a> {
 }
 
 impl<'a> Gen<'a> {
+    /// Ignore file of a directory: patterns drawn from the names occurring in the trees, the directory's own name
+    /// (its own file must NOT decide about the directory itself), `*`, and whitelists.
+    fn gen_ign(&mut self, own: &str) -> Vec<String> {
+        if !self.rng.chance(1, 3) {
+            return vec![];
+        }
+        let n = self.rng.range(1, 3);
+        (0..n)
+            .map(|_| match self.rng.below(8) {
+                0 | 1 => own.to_string(),
+                2 => "*".to_string(),
+                3 => format!("!{}", self.rng.pick(&NAMES)),
+                4 => format!("!{}", own),
+                _ => self.rng.pick(&NAMES).to_string(),
+            })
+            .collect()
+    }
     fn kids(&mut self, path: &str, depth: usize, budget: &mut usize) -> Vec<T> {
         let n = if depth >= 4 { self.rng.range(0, 2) } else { self.rng.range(0, 4) };
         let mut used: Vec<&str> = vec![];
@@ -888,17 +933,14 @@ impl<'a> Gen<'a> {
                 out.push(T::File { name: name.into(), size: self.rng.below(9) });
             } else if k < 8 {
                 self.dirs.push(p.clone());
-                let ign = if self.rng.chance(1, 4) {
-                    (0..self.rng.range(1, 2)).map(|_| self.rng.pick(&NAMES).to_string()).collect()
-                } else {
-                    vec![]
-                };
+                let ign = self.gen_ign(name);
                 let locked = self.allow_locked && self.rng.chance(1, 4);
                 let marks = (self.dirs.len(), self.files.len(), self.links.len());
                 let kids = self.kids(&p, depth + 1, budget);
                 if locked {
-                    // nothing below an unreadable directory may be a link target
+                    // neither an unreadable directory nor anything below it may be a link target
                     self.dirs.truncate(marks.0);
+                    self.dirs.retain(|d| *d != p);
                     self.files.truncate(marks.1);
                     self.links.truncate(marks.2);
                 }
@@ -942,8 +984,7 @@ fn gen_case(rng: &mut Rng, has_alt: bool) -> (Vec<T>, Vec<T>, Vec<String>) {
             }
             _ => {
                 g.dirs.push(p.clone());
-                let ign =
-                    if g.rng.chance(1, 4) { vec![g.rng.pick(&NAMES).to_string()] } else { vec![] };
+                let ign = g.gen_ign(&name);
                 let kids = g.kids(&p, 1, &mut budget);
                 main.push(T::Dir { name: name.clone(), ign, kids, locked: false });
             }
@@ -1019,6 +1060,8 @@ fn special_trees(has_alt: bool) -> Vec<(String, String, String)> {
         ("(r0(a(l>main/r0,b:1),s>main/r0/a),r1>main/r0/a,r2>main/r0/a/b,r3>!)".to_string(), "()".to_string(), "r0.r1.r2.r3".to_string()),
         ("(r0(a(up>main/r0/b),b(dn>main/r0/a),c>main/r0/c,d>main/r0/e,e>main/r0/d))".to_string(), "()".to_string(), "r0".to_string()),
         ("(r0[m;z](a(m:1,n:1,z(y:1)),m(x:1),n[a](a:1,b:1)))".to_string(), "()".to_string(), "r0".to_string()),
+        // a directory whose own ignore file matches the directory's own name / everything ("ignore all here except…")
+        ("(r0(build[*;!keep;!sub](keep:1,junk:1,sub(keep:1)),src(main:1),m[m](m:1,a:2),c[!c;c;*](a:1)))".to_string(), "()".to_string(), "r0".to_string()),
         // unreadable directories (mode 000, walked with fsuid nobody), one of them reached through a link as well
         ("(r0(a:1,k!(x:1,y(z:1)),b(c!(),d:2,l>main/r0/k),m!(q:1),z:3),r1!(a:1))".to_string(), "()".to_string(), "r0.r1".to_string()),
     ];
